@@ -37,6 +37,7 @@ ClassOf3(k) == CASE k \in {"ok", "clean", "missing"} -> {"ok"}
                  [] k = "err" -> {"err"}
                  [] k = "err-or-diff" -> {"err", "diff"}
                  [] k = "err-or-missing" -> {"err", "ok"}
+                 [] k = "any" -> {"ok", "diff", "err", "notexist"}
 
 Recs3(rs) == [i \in 1..Len(rs) |-> <<rs[i][1], rs[i][2], rs[i][3]>>]
 Recs5(rs) == [i \in 1..Len(rs) |-> <<rs[i][1], rs[i][2], rs[i][3], rs[i][4], rs[i][5]>>]
@@ -56,8 +57,20 @@ DiffOK ==
   IN /\ Ln.k \in ClassOf3(res.k)
      /\ res.k \in {"clean", "diff"} => Recs5(Ln.recs) = res.recs
 
+GlobDiffOK ==
+  LET pairs == [i \in 1..Len(Ln.pairs) |-> <<FileOf(Ln.pairs[i].src), FileOf(Ln.pairs[i].dst)>>]
+      res == GlobDiffOp(pairs, Ln.sel, Ln.f, Ln.u)
+  IN /\ Ln.k \in ClassOf3(res.k)
+     /\ res.k \in {"clean", "diff"} => Recs5(Ln.recs) = res.recs
+
 SumDiffOK ==
   LET res == SumDiffOp(FilesOf(Ln.files), FileOf(Ln.dst), Ln.sel, Ln.f, Ln.u)
+  IN /\ Ln.k \in ClassOf3(res.k)
+     /\ res.k \in {"clean", "diff"} => Recs5(Ln.recs) = res.recs
+
+GlobSumDiffOK ==
+  LET items == [i \in 1..Len(Ln.items) |-> <<FilesOf(Ln.items[i].files), FileOf(Ln.items[i].dst)>>]
+      res == GlobSumDiffOp(items, Ln.sel, Ln.f, Ln.u)
   IN /\ Ln.k \in ClassOf3(res.k)
      /\ res.k \in {"clean", "diff"} => Recs5(Ln.recs) = res.recs
 
@@ -89,7 +102,9 @@ LineOK == CASE Ln.ev = "copy" -> CopyOK
             [] Ln.ev = "generate" -> GenerateOKLine
             [] Ln.ev = "sumcopy" -> SumCopyOK
             [] Ln.ev = "diff" -> DiffOK
+            [] Ln.ev = "diffglob" -> GlobDiffOK
             [] Ln.ev = "sumdiff" -> SumDiffOK
+            [] Ln.ev = "sumdiffglob" -> GlobSumDiffOK
             [] Ln.ev = "sum" -> SumOK
             [] Ln.ev = "view" -> ViewOK
             [] Ln.ev = "viewraw" -> ViewRawOK
